@@ -129,6 +129,10 @@ func genCluster(seed uint64, tier, variant string) any {
 	if askpair {
 		mode = "change"
 	}
+	gapfill := mode == "gapfill"
+	if gapfill {
+		mode = "change"
+	}
 	cl.Stable = mode == "stable" || mode == "replicas" || mode == "helpers" || mode == "helpers2" || mode == "cancel" || mode == "dedicated" || mode == "lifetime"
 	cl.MapOrder = mode == "helpers2"
 	cl.FaultFree = mode != "faults" && mode != "lifetime"
@@ -165,7 +169,8 @@ func genCluster(seed uint64, tier, variant string) any {
 	sort.Ints(cs)
 	start := 0
 	piece := 0
-	gap := r.IntN(4) == 0
+	gap := r.IntN(4) == 0 || gapfill
+	gapSlot := -1
 	for i := 0; i <= len(cs); i++ {
 		end := 16383
 		if i < len(cs) {
@@ -173,6 +178,7 @@ func genCluster(seed uint64, tier, variant string) any {
 		}
 		if gap && piece == 1 && end-start >= 2 {
 			// leave [start, start] unserved
+			gapSlot = start
 			start++
 			gap = false
 		}
@@ -542,6 +548,51 @@ func genCluster(seed uint64, tier, variant string) any {
 		cl.MaxMoved = pick(r, 0, 0, 3)
 		cl.ToReplicas, cl.ReplicaOnly, cl.Selector = "", false, ""
 	}
+	if gapfill && gapSlot >= 0 {
+		// directed: a slot nobody serves when the client starts is assigned to a shard afterwards and at once starts to
+		// migrate on; the client learns of the slot only through the refresh it does when a batch finds no connection for
+		// it, and the node it then asks answers ASK for the block's (new) keys: the whole block must travel
+		cl.RefreshMs = 0
+		a := r.IntN(nsh)
+		b := (a + 1 + r.IntN(nsh-1)) % nsh
+		p.Tasks = nil
+		for ti := 0; ti < 3; ti++ {
+			var calls []CallSpec
+			for ci := 0; ci < 4; ci++ {
+				uid := func(k int) string { return fmt.Sprintf("t%d.c%d.k%d", ti, ci, k) }
+				key := func(k int) string { return "{" + tagForSlot(gapSlot) + "}g." + uid(k) }
+				c := CallSpec{Kind: "multi"}
+				if ci == 0 {
+					// something on a served slot first, so that the assignment usually comes before the first use
+					c.Cmds = append(c.Cmds, CmdSpec{Argv: []string{"VKTAG", keyOf(r.IntN(len(ks)), "k0"), uid(9), "s"}, Keys: 1, Flag: "ro"})
+					calls = append(calls, c)
+					continue
+				}
+				k := 0
+				for i, m := 0, r.IntN(2); i < m; i++ {
+					c.Cmds = append(c.Cmds, CmdSpec{Argv: []string{"VWTAG", key(k), uid(k)}, Keys: 1})
+					k++
+				}
+				c.Cmds = append(c.Cmds, CmdSpec{Argv: []string{"MULTI"}})
+				for i, m := 0, 1+r.IntN(3); i < m; i++ {
+					c.Cmds = append(c.Cmds, CmdSpec{Argv: []string{"VWTAG", key(k), uid(k)}, Keys: 1})
+					k++
+				}
+				c.Cmds = append(c.Cmds, CmdSpec{Argv: []string{"EXEC"}})
+				calls = append(calls, c)
+			}
+			p.Tasks = append(p.Tasks, calls)
+		}
+		p.Ghosts = []GhostSpec{
+			{Kind: "assign-slot", MinStep: 2 + r.IntN(8), Argv: []string{strconv.Itoa(gapSlot), strconv.Itoa(a)}},
+			{Kind: "migrate-start", MinStep: 2, Argv: []string{strconv.Itoa(gapSlot), strconv.Itoa(b)}},
+			{Kind: "migrate-finish", MinStep: 150 + r.IntN(100), Argv: []string{strconv.Itoa(gapSlot)}},
+		}
+		cl.MaxMoved = pick(r, 0, 0, 3)
+		cl.ToReplicas, cl.ReplicaOnly, cl.Selector = "", false, ""
+		p.X["gapfill"] = true
+		return p
+	}
 	if cl.Cancel {
 		cl.SendBuf = pick(r, 64, 256, 1024)
 		p.Opt.WriteBuf = pick(r, 32, 64, 512)
@@ -873,6 +924,12 @@ func (ce *clusterEnv) ghost(g GhostSpec) func(*sched.Sim) {
 		}
 	case "sync-all":
 		return func(s *sched.Sim) { c.SyncAll() }
+	case "assign-slot":
+		return func(s *sched.Sim) {
+			if c.Owner(num(0)) == nil {
+				c.SetSlotOwner(num(0), masterOfShard(num(1)))
+			}
+		}
 	case "migrate-start":
 		return func(s *sched.Sim) {
 			to := masterOfShard(num(1))
